@@ -363,7 +363,7 @@ func c12NewGrammar(thorough bool) *c12Grammar {
 		g.nid = []string{"", "0x1"}
 		g.nonce = []string{"", "0x0", "0x7"}
 	} else {
-		g.value = []string{"", "0x0", "0xde0b6b3a7640000"}
+		g.value = []string{"", "0xde0b6b3a7640000"}
 		g.step = []string{"0x0", "0xf4240"}
 		g.ts = []string{"0x5c31ae7a6d8f0"}
 		g.nid = []string{"", "0x1"}
@@ -582,6 +582,7 @@ type c12Ctx struct {
 	byID       map[string]string
 	byGoloopID map[string]c12Seen
 	stats      map[string]int64
+	rounds     int
 }
 
 type c12Seen struct{ ser, tag, js string }
@@ -626,7 +627,12 @@ func (c *c12Ctx) runCase(cs c12Case) {
 	r.Nontrivial(refTxSer(lt) + "|" + p.name)
 
 	fail := func(kind, rep, detail string) {
-		r.Violation(fmt.Sprintf("%s/%s/form=%s/data=%s", kind, rep, form, tag),
+		sig := fmt.Sprintf("%s/%s/form=%s", kind, rep, form)
+		if tag != "-" {
+			// probes of one specific data shape: the shape is the narrow key
+			sig = fmt.Sprintf("%s/%s/data=%s", kind, rep, tag)
+		}
+		r.Violation(sig,
 			fmt.Sprintf("%s\n presentation=%s idx=%v\n json=%s", detail, p.name, cs.Idx, js), cs)
 	}
 	check := func(rep string, tx Transaction) bool {
@@ -696,7 +702,7 @@ func (c *c12Ctx) runCase(cs c12Case) {
 	// stored form, any number of times
 	b1 := t1.Bytes()
 	prev := b1
-	for round := 1; round <= 3; round++ {
+	for round := 1; round <= c.rounds; round++ {
 		rep := fmt.Sprintf("stored#%d", round)
 		var tn Transaction
 		if pn := ev.Catch(func() { tn, err = NewTransaction(prev) }); pn != "" {
@@ -848,14 +854,14 @@ func TestVerifC12(t *testing.T) {
 	r := ev.Start(t, "C12", "exploration")
 	r.Rule("full product from x to x value x stepLimit x timestamp x nid x nonce x data-shape x spelling-form of a v3 JSON grammar, " +
 		"each in every presentation {compact, indented, reversed key order, all-\\u-escaped, all three}; every element is pushed through " +
-		"JSON -> object -> stored bytes -> object (3 rounds), raw-JSON constructor, and JSON-RPC output -> object; " +
+		"JSON -> object -> stored bytes -> object (quick 2, thorough 3 rounds), raw-JSON constructor, and JSON-RPC output -> object; " +
 		"non-trivial = distinct (reference serialisation, presentation); mutation part: every single-dimension change of every canonical-form " +
 		"element signed by the sender, carrying the original signature")
 	r.Assume("the reference serialiser (ICON JSON-RPC v3 'transaction hash' rules: keys sorted, '.'-joined, \\-escaping of \\{}[]., null = \\0, lists '.'-joined) written in the harness is the specification",
 		"data values are strings, dicts, lists and null only: JSON numbers/booleans (aliases of their integer part / unsupported) are not in the grammar; of the [] / [\"\"] alias only [] is in the grammar",
 		"golang.org/x/crypto/sha3 and goloop's signer (checked by C13) are trusted")
 	g := c12NewGrammar(r.Thorough())
-	c := &c12Ctx{r: r, g: g, byID: map[string]string{}, byGoloopID: map[string]c12Seen{}, stats: map[string]int64{}}
+	c := &c12Ctx{r: r, g: g, byID: map[string]string{}, rounds: r.Pick(2, 3), byGoloopID: map[string]c12Seen{}, stats: map[string]int64{}}
 
 	if ev.Replaying() {
 		var cs c12Case
